@@ -17,7 +17,7 @@ structure Slice where
   off : Nat
   len : Nat
   cap : Nat
-deriving Repr, DecidableEq
+deriving Repr, DecidableEq, Inhabited
 
 /-- the heap: backing arrays by number -/
 abbrev Heap (α : Type) := List (List α)
